@@ -21,6 +21,8 @@ tree and the mirror describe the same smooth function."""
 from __future__ import annotations
 
 import numpy as np
+
+from ..core import Violation
 from hypothesis import strategies as st
 
 from .sparse import build_sparse, dense_of, sparse_spec
@@ -42,20 +44,35 @@ KINK = {"abs": 0.0, "heaviside": 0.0}
 # ------------------------------------------------------------------------------- strategy
 @st.composite
 def _key(draw, n, m):
-    """A row key selecting m of n entries (m <= n)."""
-    kinds = ["index"]
+    """A row key selecting m of n entries (m <= n), in any of the numpy spellings: non-negative or negative integers,
+    slices with non-negative / negative / omitted bounds, index arrays (entries of either sign), boolean masks."""
+    kinds = ["index", "index"]
     if m == 1:
-        kinds.append("int")
-    kinds.append("slice")
+        kinds += ["int", "int"]
+    kinds += ["slice", "slice", "mask"]
     kind = draw(st.sampled_from(kinds))
+    neg = draw(st.booleans())
     if kind == "int":
-        return {"t": "int", "v": draw(st.integers(0, n - 1))}
+        v = draw(st.integers(0, n - 1))
+        return {"t": "int", "v": v - n if neg else v}
     if kind == "slice":
         # start, step with exactly m elements
         step = draw(st.integers(1, max(1, (n - 1) // max(1, m - 1)))) if m > 1 else 1
         start = draw(st.integers(0, n - 1 - (m - 1) * step))
-        return {"t": "slice", "v": [start, start + (m - 1) * step + 1, step]}
-    return {"t": "index", "v": draw(st.lists(st.integers(0, n - 1), min_size=m, max_size=m))}
+        stop = start + (m - 1) * step + 1
+        v = [start, stop, step]
+        if neg:
+            # the same rows spelled with negative / omitted bounds
+            v = [None if start == 0 and draw(st.booleans()) else start - n,
+                 None if stop >= n else stop - n, step if step > 1 or draw(st.booleans()) else None]
+        return {"t": "slice", "v": v}
+    if kind == "mask":
+        idx = draw(st.lists(st.integers(0, n - 1), min_size=m, max_size=m, unique=True))
+        return {"t": "mask", "v": [i in idx for i in range(n)]}
+    v = draw(st.lists(st.integers(0, n - 1), min_size=m, max_size=m))
+    if neg:
+        v = [i - n if draw(st.booleans()) else i for i in v]
+    return {"t": "index", "v": v}
 
 
 @st.composite
@@ -168,6 +185,8 @@ def _py_key(key):
         return int(key["v"])
     if key["t"] == "slice":
         return slice(*key["v"])
+    if key["t"] == "mask":
+        return np.array(key["v"], dtype=bool)
     return np.array(key["v"], dtype=int)
 
 
@@ -212,7 +231,19 @@ class Evaluator:
             key = _py_key(nd["key"])
             if ad:
                 self.kinds.add("slice-" + nd["key"]["t"])
-                return a[key]
+                kv = nd["key"]["v"]
+                if nd["key"]["t"] in ("int", "index", "slice") and any(
+                        isinstance(x, int) and not isinstance(x, bool) and x < 0 for x in (kv if isinstance(kv, list) else [kv])):
+                    self.kinds.add("slice-negative")
+                if nd["key"]["t"] == "slice" and any(x is None for x in kv):
+                    self.kinds.add("slice-open")
+                r = a[key]
+                m = int(np.atleast_1d(np.asarray(a.val)[key]).size)
+                if not (hasattr(r, "val") and np.shape(r.val) == (m,) and r.jac.shape[0] == m):
+                    raise Violation("slice-shape", f"AdArray of size {a.val.size} indexed with {key!r}: value shape "
+                                                   f"{np.shape(getattr(r, 'val', None))}, Jacobian shape "
+                                                   f"{getattr(getattr(r, 'jac', None), 'shape', None)}, expected {m} row(s)")
+                return r
             r = a[key]
             return np.atleast_1d(r)
         if k == "mat":
